@@ -26,6 +26,19 @@ fn name(i: usize) -> String {
     "a".repeat(i)
 }
 
+/// universe 0: element i = 'a' x i. universe 1: distinct characters (one of them two bytes long)
+/// chosen so that elements occur inside other elements at the start, in the middle and at the end -
+/// a rule can then hand back a *borrowed sub-slice* of its argument that drops bytes at both ends.
+const UNIVERSE_B: [&str; 6] = ["", "\u{e9}", "a\u{e9}c", "xa\u{e9}cx", "\u{e9}c", "a\u{e9}cx"];
+
+fn universe(uni: u8, k: usize) -> Vec<String> {
+    if uni == 0 {
+        (0..k).map(name).collect()
+    } else {
+        UNIVERSE_B.iter().take(k).map(|s| s.to_string()).collect()
+    }
+}
+
 fn err_of(code: usize, k: usize) -> E {
     if code == k {
         E::Invalid
@@ -43,10 +56,11 @@ fn impl_err(code: usize, k: usize) -> Error {
 }
 
 /// style: 0 = f always returns Owned; 1 = f returns Borrowed(input) when f(x)=x;
-/// 2 = additionally Borrowed(prefix of the input) whenever the image is shorter
+/// 2 = additionally a Borrowed sub-slice of the input whenever the image occurs in it (first
+/// occurrence: a prefix in universe 0); 3 = the same with the last occurrence (a suffix in universe 0)
 /// form: 0 = &str, 1 = String, 2 = Cow::Borrowed, 3 = Cow::Owned
-pub fn check_fn(f: &[usize], k: usize, start: usize, style: u8, form: u8, st: &mut Stats) {
-    let names: Vec<String> = (0..k).map(name).collect();
+pub fn check_fn(f: &[usize], k: usize, start: usize, style: u8, form: u8, uni: u8, st: &mut Stats) {
+    let names: Vec<String> = universe(uni, k);
     let log: RefCell<Vec<String>> = RefCell::new(Vec::new());
     let closure = constrain(|x: &str| -> Result<Cow<'_, str>, Error> {
         log.borrow_mut().push(x.to_string());
@@ -61,9 +75,10 @@ pub fn check_fn(f: &[usize], k: usize, start: usize, style: u8, form: u8, st: &m
         }
         if img == i && style >= 1 {
             Ok(Cow::Borrowed(unsafe_same(x)))
-        } else if img < i && style == 2 {
+        } else if img != i && style >= 2 && x.contains(names[img].as_str()) {
             // a borrowed sub-slice of the input: different content, Borrowed variant
-            Ok(Cow::Borrowed(&unsafe_same(x)[..img]))
+            let at = if style == 2 { x.find(names[img].as_str()) } else { x.rfind(names[img].as_str()) }.unwrap_or(0);
+            Ok(Cow::Borrowed(&unsafe_same(x)[at..at + names[img].len()]))
         } else {
             Ok(Cow::Owned(names[img].clone()))
         }
@@ -72,7 +87,7 @@ pub fn check_fn(f: &[usize], k: usize, start: usize, style: u8, form: u8, st: &m
         x
     }
     let s0 = names[start].clone();
-    crate::watch::context(&format!("stabilize with f={:?} over universe of {} (element i = 'a' x i), start {}, style {}, form {}", f, k, start, style, form));
+    crate::watch::context(&format!("stabilize with f={:?} over universe {:?}, start {}, style {}, form {}", f, names, start, style, form));
     let got = guard(|| {
         let r = match form {
             0 => stabilize(s0.as_str(), &closure),
@@ -102,6 +117,7 @@ pub fn check_fn(f: &[usize], k: usize, start: usize, style: u8, form: u8, st: &m
             .n(start as u64)
             .n(style as u64)
             .n(form as u64)
+            .n(uni as u64)
             .x(json!(f))
     };
     let descr = |r: &Result<String, E>| match r {
@@ -267,12 +283,14 @@ pub fn run(_env: &Env, run: &Run) -> (Stats, Coverage) {
             for start in 0..k {
                 st.states += 1;
                 // transitions = applications the reference makes along the chain
-                for style in 0..3u8 {
-                    // the argument forms only matter at entry; rotate them over styles/starts
-                    for form in 0..4u8 {
-                        if run.tier == Tier::Quick || form == ((start as u8 + style) % 4) || idx % 7 == 0 {
-                            st.transitions += 1;
-                            check_fn(&f, k, start, style, form, &mut st);
+                for uni in 0..2u8 {
+                    for style in 0..4u8 {
+                        // the argument forms only matter at entry; rotate them over styles/starts
+                        for form in 0..4u8 {
+                            if run.tier == Tier::Quick || form == ((start as u8 + style + uni) % 4) || idx % 7 == 0 {
+                                st.transitions += 1;
+                                check_fn(&f, k, start, style, form, uni, &mut st);
+                            }
                         }
                     }
                 }
@@ -307,14 +325,14 @@ pub fn run(_env: &Env, run: &Run) -> (Stats, Coverage) {
             st.merge(s);
         }
     }
-    st.sample(json!({"universe": "element i = 'a' repeated i times (element 0 is the empty string)"}));
+    st.sample(json!({"universe 0": "element i = 'a' repeated i times (element 0 is the empty string)", "universe 1": UNIVERSE_B.iter().take(k).collect::<Vec<_>>()}));
     st.sample(json!({"k": 4, "f": "0->1,1->2,2->3,3->3", "start": 0, "expected": "Ok(3) after 4 applications (first + three re-applications)"}));
     st.sample(json!({"k": 4, "f": "0->1,1->0", "start": 0, "expected": "Err(Invalid) after 4 applications"}));
     st.sample(json!({"k": 4, "f": "0->1,1->Err(BadCodepoint)", "start": 0, "expected": "that BadCodepoint error, after 2 applications"}));
     let cov = Coverage {
-        rule: format!("state = (f, start, Cow style, argument form) with f ranging over ALL {}^{} functions from a {}-element universe of strings to that universe + {{Err(Invalid), Err(BadCodepoint)}}; oracle = RFC 8264 s.7 chain semantics (first application + 3 re-applications), call log must equal the chain; plus re-entrant use f(x) = h(stabilize(x, g)) for ALL pairs (g, h) of functions on a 3/4-element universe; non-trivial = chains needing more than one application", base, k, k),
-        alphabet: json!({"universe": (0..k).map(name).collect::<Vec<_>>(), "errors": ["Invalid", "BadCodepoint(0x42,7,Disallowed)"]}),
-        bound_completed: format!("all {} functions x {} starts x 3 Cow styles (always Owned / Borrowed when unchanged / Borrowed sub-slice whenever the image is a prefix) (x 4 argument forms{})", nf, k, if run.tier == Tier::Quick { "" } else { ", rotated; all 4 on every 7th function" }),
+        rule: format!("state = (f, start, universe, Cow style, argument form) with f ranging over ALL {}^{} functions from a {}-element universe of strings (two universes: a^i, and distinct characters nested at the start / middle / end of each other) to that universe + {{Err(Invalid), Err(BadCodepoint)}}; oracle = RFC 8264 s.7 chain semantics (first application + 3 re-applications), call log must equal the chain; plus re-entrant use f(x) = h(stabilize(x, g)) for ALL pairs (g, h) of functions on a 3/4-element universe; non-trivial = chains needing more than one application", base, k, k),
+        alphabet: json!({"universe": (0..k).map(name).collect::<Vec<_>>(), "universe_1": UNIVERSE_B.iter().take(k).collect::<Vec<_>>(), "errors": ["Invalid", "BadCodepoint(0x42,7,Disallowed)"]}),
+        bound_completed: format!("all {} functions x {} starts x 2 universes x 4 Cow styles (always Owned / Borrowed when unchanged / Borrowed sub-slice at the first / last occurrence of the image in the argument: prefixes, suffixes and slices that drop bytes at both ends) (x 4 argument forms{})", nf, k, if run.tier == Tier::Quick { "" } else { ", rotated; all 4 on every 7th function" }),
         exhaustive: true,
         assumptions: vec!["stabilize only observes f through its return values; a universe of k strings contains every chain shape up to length k (converging after 0..k-1 steps, every cycle length <= k, failure at every step)".into()],
         extra: json!({"universe_size": k, "functions": nf}),
@@ -325,14 +343,14 @@ pub fn run(_env: &Env, run: &Run) -> (Stats, Coverage) {
 pub fn replay(_env: &Env, case: &Case) -> Vec<Violation> {
     let mut st = Stats::default();
     match case.op.as_str() {
-        "stabilize" if case.nums.len() == 4 => {
+        "stabilize" if case.nums.len() == 4 || case.nums.len() == 5 => {
             let f: Vec<usize> = case
                 .extra
                 .as_array()
                 .map(|a| a.iter().filter_map(|x| x.as_u64().map(|x| x as usize)).collect())
                 .unwrap_or_default();
             if f.len() == case.nums[0] as usize {
-                check_fn(&f, case.nums[0] as usize, case.nums[1] as usize, case.nums[2] as u8, case.nums[3] as u8, &mut st);
+                check_fn(&f, case.nums[0] as usize, case.nums[1] as usize, case.nums[2] as u8, case.nums[3] as u8, case.nums.get(4).copied().unwrap_or(0) as u8, &mut st);
             }
         }
         "diverging" => check_diverging(&mut st),
